@@ -1,5 +1,7 @@
 use crate::fw::{Ctx, Report, Verdict};
 
+pub mod c14;
+pub mod c16;
 pub mod c17;
 
 pub struct Entry {
@@ -17,6 +19,8 @@ pub fn lookup(id: &str) -> Option<Entry> {
         };
     }
     match id {
+        "C14" => e!(c14),
+        "C16" => e!(c16),
         "C17" => e!(c17),
         _ => None,
     }
